@@ -46,10 +46,9 @@ func genRPNElementByOp(logicalOp influxql.Token, value *FieldRef, res *RPNElemen
 		res.rg = createLeftBounded(value, true, false)
 	case influxql.IN:
 		res.op = rpn.InSet
-	case influxql.MATCHPHRASE, influxql.IPINRANGE:
-		res.op = rpn.InRange
-		res.rg = NewRange(value, value, true, true)
 	default:
+		// also MATCHPHRASE and IPINRANGE: a key that contains the phrase, or lies in the address range,
+		// need not be equal to the literal, so they cannot be narrowed to the point range [value, value].
 		res.op = rpn.UNKNOWN
 		return false
 	}
